@@ -7,8 +7,6 @@ import (
 	"net/http"
 	"strings"
 	"time"
-
-	"verif.local/engine/vs"
 )
 
 // In-process stand-ins for the registry and the token service. No sockets: the
@@ -129,6 +127,7 @@ type fake struct {
 	events   []event
 	curSend  int
 	ntoken   int
+	choose   func(n int) int // asks the explorer for one of n alternatives
 }
 
 // reset prepares a replay of the recorded script.
@@ -145,7 +144,7 @@ func (f *fake) next() beh {
 	if f.pos >= f.limit {
 		return bOK
 	}
-	b := f.alphabet[vs.Choose(len(f.alphabet), vs.KInput, "answer")]
+	b := f.alphabet[f.choose(len(f.alphabet))]
 	f.script = append(f.script, b)
 	return b
 }
